@@ -182,6 +182,26 @@ def name_path_rules(rep, ctx, mod, cg, prefix=""):
         cutst = [s for s in sp.insts() if s.op == "store" and s.size == 1 and is_const(s.ops[0]) and const_val(s.ops[0]) == 0 and
                  M.match(("gep", ("call", "strrchr", [ANY, SLASH]), [1]), s.ops[1], {}) is not None]
         rep.check(rid, len(cutst) == 1, "the old buffer is terminated right after the last '/' (it becomes the path)", sp.file, None, function=sp.cname, obj="cut")
+        # post-condition "no '/' in filename": whenever a '/' was found the split happens - a successful return that keeps the old filename
+        # (no store of the tail) is possible only under strrchr(...) == NULL
+        sts_ = stores_to_field(mod, HDR, "filename", [sp])
+        cut_ = set()
+        for st_ in sts_:
+            cut_ |= {(st_.block.id, x) for x in st_.block.succs} | ({(st_.block.id, "ret")} if not st_.block.succs else set())
+        for b_ in sp.blocks:
+            for x_ in b_.succs:
+                if M.find_fact(("eq", ("call", "strrchr", [ANY, SLASH]), 0), F.edge_facts(b_.id, x_))[0] is not None:
+                    cut_.add((b_.id, x_))
+        bad_ = []
+        for vv, pb, b in success_edges(F, sp):
+            tgt = pb if pb is not None else b
+            if any(st_.block.id == tgt for st_ in sts_):
+                continue
+            if F.reaches_avoiding(0, tgt, cut_) or tgt == 0:
+                bad_.append(tgt)
+        rep.check(rid, not bad_ and bool(sts_), "split_header_filename returns success without splitting only when no '/' was found", sp.file,
+                  None if not bad_ else "a successful return (bb%s) is reachable with a '/' found and the name left as it is: the returned file name can contain '/'" % bad_,
+                  function=sp.cname, obj="always-split")
     rep.check(rid, nstores >= 4, "filename stores found", "lib/", "%d" % nstores, function="filename", obj="count")
 
     # ---- R1b other byte writers -----------------------------------------------------------------------------------
